@@ -49,6 +49,12 @@ def run(ctx):
             # (FileDone(false) -> error -> connection closed with code 0) then competes with the reader's own error
             cases.append(base(f"flip-{at}-race", files=[dict(one[0])], streams=1, delay_point="recv.after_finalize", delay_ms=25, delay_arg=0,
                               faults=[{"from_a": True, "stream": 1, "a_to_b": True, "at": at, "kind": "flip", "conn": 0}], _kind="flip-race"))
+    # the same flips under the other file-hash settings (the frame checksum must not depend on them)
+    for alg in ("none", "xxhash64"):
+        for at in range(0, 4 * frame, 1 if ctx.tier == "thorough" else 5):
+            if at % frame >= 16:
+                cases.append(base(f"flip-{at}-{alg}", files=[dict(one[0])], streams=1, hash_alg=alg,
+                                  faults=[{"from_a": True, "stream": 1, "a_to_b": True, "at": at, "kind": "flip", "conn": 0}], _kind="flip-" + alg))
     # cancellation of either endpoint at various moments of a longer transfer
     big = [{"p": "big.bin", "n": 600000, "s": 31}, {"p": "z.bin", "n": 70000, "s": 32}]
     for ms in ([1, 2, 3, 5, 8, 13] if ctx.tier == "quick" else list(range(1, 40, 2))):
